@@ -44,7 +44,7 @@ VERIF_TARGET(c44_balances, nullptr, 96, 1100,
              "receive from a foreign coin (1-2 wallet outputs), wallet spend with change (all inputs ours, also of unconfirmed coins), mixed-input spend, "
              "wallet-created send (CreateTransaction+Commit), RBF replacement, mine a block from a subset of the mempool (optionally coinbase to the wallet), "
              "mine a block confirming a double spend of a mempool transaction, overtake the tip from 1-3 blocks back with a branch that re-mines / drops / "
-             "double-spends the disconnected transactions, 1-3 empty blocks (maturity), invalidate+reconsider the tip; transactions that end up neither "
+             "double-spends the disconnected transactions, double conflict (a 3-input wallet spend double-spent at two heights, then only the newer / both conflicting blocks disconnected), 1-3 empty blocks (maturity), invalidate+reconsider the tip; transactions that end up neither "
              "confirmed, in the mempool nor conflicted are abandoned (user operation) before a comparison. After every op: balances + AvailableCoins vs the "
              "independent ledger. non-trivial = a reorg disconnected a block holding a wallet transaction AND some wallet transaction was conflicted by the "
              "active chain at a comparison; distinct = op-kind sequence + reorg depths + conflict counts")
@@ -197,7 +197,7 @@ VERIF_TARGET(c44_balances, nullptr, 96, 1100,
     checkpoint("start");
     unsigned nops = s.range<unsigned>(3, 24);
     for (unsigned op = 0; op < nops && !s.exhausted(); ++op) {
-        unsigned kind = s.range<unsigned>(0, 11);
+        unsigned kind = s.range<unsigned>(0, 13);
         View v = MakeView(last);
         const int next_height = sim.TipHeight() + 1;
         st.mix(uint64_t(kind));
@@ -342,6 +342,67 @@ VERIF_TARGET(c44_balances, nullptr, 96, 1100,
             }
             st.cls("empty-blocks");
             continue;
+        } else if (kind >= 12) {
+            // double conflict: an unconfirmed wallet transaction B with three wallet inputs X, Y, Z is double-spent twice, by X' (spends X) confirmed at
+            // h1 and by Y' (spends Y and a foreign coin F) confirmed at h2 > h1; then only the newer block goes away (a competing branch from h2-1 whose
+            // first block spends F, so that Y' can neither stay confirmed nor return to the mempool), or the tip is invalidated, or both blocks go.
+            // B stays conflicted by the h1 block: Z (and Y) must be spendable again.
+            std::vector<std::pair<COutPoint, RefCoin>> conf, any;
+            for (auto& c : wallet_coins(v, next_height)) (c.second.height > 0 ? conf : any).push_back(c);
+            std::vector<std::pair<COutPoint, RefCoin>> fc;
+            for (auto& c : foreign_coins(v, next_height)) if (c.second.height > 0) fc.push_back(c);
+            if (conf.size() < 2 || conf.size() + any.size() < 3 || fc.empty()) continue;
+            size_t rot = s.index(conf.size());
+            std::rotate(conf.begin(), conf.begin() + rot, conf.end());
+            auto X = conf[0], Y = conf[1];
+            auto Z = conf.size() >= 3 ? conf[2] : any[s.index(any.size())];
+            auto F = fc[s.index(fc.size())];
+            CAmount total = X.second.value + Y.second.value + Z.second.value;
+            auto b = ws.MakeTx({X, Y, Z}, {CTxOut(total / 3, P2WSH_OP_TRUE), CTxOut(total - total / 3 - FEE, new_wallet_script(true))});
+            VCHECK(b.has_value(), "c44.harness", "wallet could not sign its own coins");
+            CTransactionRef B = submit(*b, "multi-input-spend");
+            if (!B) continue;
+            auto offchain = [&](const std::optional<CMutableTransaction>& m) -> CTransactionRef {
+                if (!m) return nullptr;
+                CTransactionRef tx = MakeTransactionRef(*m);
+                remember(tx);
+                if (relates(tx)) wallet_related.insert(tx->GetHash());
+                ws.Track(tx);
+                return tx;
+            };
+            CTransactionRef Xp = offchain(ws.MakeTx({X}, {CTxOut(X.second.value - FEE - 11, P2WSH_OP_TRUE)}));
+            CTransactionRef Yp = offchain(ws.MakeTx({Y, F}, {CTxOut(Y.second.value + F.second.value - FEE - 13, P2WSH_OP_TRUE)}));
+            CTransactionRef W = offchain(ws.MakeTx({F}, {CTxOut(F.second.value - FEE - 17, P2WSH_OP_TRUE)}));
+            if (!Xp || !Yp || !W) continue;
+            uint256 b1 = mine_on(sim.TipHash(), {Xp}, false, 3000 + op * 8);
+            checkpoint("after-first-conflict");
+            if (s.chance(100)) { mine_on(sim.TipHash(), {}, false, 3001 + op * 8); checkpoint("between-conflicts"); }
+            const uint256 before_b2 = sim.TipHash();
+            uint256 b2 = mine_on(sim.TipHash(), {Yp}, false, 3002 + op * 8);
+            checkpoint("after-second-conflict");
+            if (sim.TipHash() != b2) continue;
+            st.cls("double-conflict");
+            unsigned variant = s.range<unsigned>(0, 3);
+            if (variant <= 1) {
+                // only the newer conflicting block is replaced (depth-1 reorg); the competing block spends F
+                uint256 c1 = mine_on(before_b2, {W}, false, 3003 + op * 8);
+                mine_on(c1, {}, false, 3004 + op * 8);
+                st.cls("double-conflict-newer-block-disconnected");
+            } else if (variant == 2) {
+                CBlockIndex* pi;
+                { LOCK(cs_main); pi = sim.chainman().m_blockman.LookupBlockIndex(b2); }
+                BlockValidationState state;
+                sim.chainstate().InvalidateBlock(state, pi);
+                sim.SyncSignals();
+                note_reorg(b2, sim.TipHash());
+                st.cls("double-conflict-newer-block-invalidated");
+            } else {
+                // both conflicting blocks go: empty competing branch from below the first one
+                uint256 parent = sim.ledger.At(b1).prev;
+                int need = sim.ledger.At(b2).height - sim.ledger.At(parent).height + 1;
+                for (int k = 0; k < need; ++k) parent = mine_on(parent, {}, false, 3005 + op * 8 + k);
+                st.cls("double-conflict-both-blocks-disconnected");
+            }
         } else {
             // invalidate the tip, compare, reconsider, compare
             uint256 tip = sim.TipHash();
